@@ -120,3 +120,26 @@ def edge_region(fn, src, dst):
     without = reachable(fn, 0, cut_edges={(src, dst)})
     via = reachable(fn, dst)
     return via - without
+
+
+def guard_edges(fn, site_block):
+    """Conditional edges that dominate `site_block`: list of (switch block, taken)
+    where taken is the list of (value|'else', target) successors of the switch from which
+    the site is reachable without passing the switch again — only for switches where
+    that is a proper subset of the successors."""
+    idom = dominators(fn)
+    out = []
+    if site_block not in idom:
+        return out
+    d = site_block
+    while d != 0:
+        d = idom[d]
+        t = fn.blocks[d]["t"]
+        if t[0] == "sw":
+            targets = [(v, bb) for v, bb in t[2]] + [("else", t[3])]
+            taken = [(v, bb) for v, bb in targets if site_block in reachable(fn, bb, cut_blocks={d})]
+            if len(taken) < len(targets):
+                out.append((d, taken))
+        if d == 0:
+            break
+    return out
